@@ -99,7 +99,9 @@ where
                 self.buf_offset = 0;
                 self.chunk_index += 1;
                 self.state = IoChunkReaderState::Seek;
-                let chunk = self.buf.clone();
+                let mut chunk = self.buf.clone();
+                // The buffer may still hold a previous chunk if this chunk is zero sized.
+                chunk.truncate(read_at.size);
                 return Poll::Ready(Some(Ok(chunk.freeze())));
             }
             match self.state {
